@@ -200,9 +200,12 @@ arbitrary bytes, then an option name — the resolver returns exactly what navig
 time with the single-level accessors returns (the same option of the same section instance, or
 nothing). -/
 theorem C11_resolve (c : Cfg) (steps : List PStep) (leaf : Bytes)
-    (hleaf : plainName leaf) (hsteps : ∀ s ∈ steps, plainName s.name ∧ s.qual.ok) :
+    (hleaf : plainName leaf) (hsteps : ∀ s ∈ steps, plainName s.name ∧ s.qual.ok)
+    (hkv : c.flags.keystrval = false) :     -- in a free-form section a key of exactly that spelling comes first (keyFirst)
     (getoptPath c (renderPath steps leaf)).ref = walk c [] steps leaf := by
   unfold getoptPath getoptSecidx
+  have hkf : keyFirst c (renderPath steps leaf) false = none := by simp [keyFirst, hkv]
+  rw [hkf]
   obtain ⟨r0, rs, hR, _⟩ := renderPath_head steps leaf hleaf (fun s h => (hsteps s h).1)
   have hne : (renderPath steps leaf).isEmpty = false := by rw [hR]; rfl
   simp only [hne, Bool.false_eq_true, if_false]
